@@ -31,6 +31,33 @@ def int_queries(tier, WIN=99999):
                     bw = {'IntToString': nd // 2 + 1, 'ref_parse': nd // 2 + 1, 'Write': nd + 1}
                     qs.append(Query('int/%s/%s/%s/win' % (e[2:], tag, ch), 'C10_int.cpp', e, {'NUM': ty, 'CHAR': ch, 'MAXV': WIN}, bounds=bw, timeout=600, mem_gb=8))
     return qs
+import os
+PRIV = ['-Dprivate=public', '-Dprotected=public']
+MANUAL_KF = bool(os.environ.get('VF_KF_MANUAL'))
+def ko(only):
+    return None if MANUAL_KF else only
+def kf(defs, excl=(), only=None):
+    """until the ids are listed in known_findings.json the defines can be forced with VF_KF_MANUAL=1 (testing only)"""
+    d = dict(defs)
+    if MANUAL_KF:
+        for k in excl: d['KF_EXCL_' + k.replace('-', '_')] = 1
+        if only: d['KF_ONLY_' + only.replace('-', '_')] = 1
+    return d
+def fmt_queries(tier):
+    qs = []
+    NMAX = 5 if tier == 'quick' else 8
+    for ch in ('char',):
+        for fixed in (1, 0):
+            for mode in (0, 1, 2):
+                for n in range(1, NMAX + 1):
+                    if mode == 1 and n < 2: continue
+                    m = n + 8
+                    b = {'draw|fill': n + 1, 'ref_round|parse': m, 'h_fixed': 7, 'formatStringNumberFixed|roundStringNumber': m, 'Write': m, 'Reverse': m, 'InsertAt': m,
+                         'insertZerosLarge': 2}
+                    ex = ['C10-prec0-dot', 'C10-trim-integer-zeros']
+                    qs.append(Query('fmt/%s/%s/mode%d/n%d' % ('fixed' if fixed else 'semifixed', ch, mode, n), 'C10_fmt.cpp', 'h_fixed',
+                                    kf({'NDIG': n, 'MODE': mode, 'FIXED': fixed, 'CHAR': ch}, ex), bounds=b, cflags=PRIV, kf_excl=ex, timeout=600, mem_gb=8))
+    return qs
 def queries(tier):
     import os
-    return int_queries(tier, int(os.environ.get('C10_WIN', '99999')))
+    return int_queries(tier, int(os.environ.get('C10_WIN', '99999' if tier == 'quick' else '9999999'))) + fmt_queries(tier)
